@@ -52,7 +52,7 @@ struct SeqHarness : HarnessBase {
 
 	SeqHarness(int cap) : cap_size(cap) {}
 	~SeqHarness() { }
-	const char *prop() const { return "C13"; }
+	const char *prop() const { return wanted_prop() == "C16" ? "C16" : "C13"; }   // C16 runs this harness too: a crash, sanitizer report or assertion then counts for it
 	V &s(int a) { return *reinterpret_cast<V *>(store[a]); }
 
 	void reset() {
@@ -183,7 +183,7 @@ struct DynHarness : HarnessBase {
 	alignas(16) unsigned char store[2][sizeof(V)];
 	bool alive[2] = {false, false};
 	std::vector<int> ref[2];
-	const char *prop() const { return "C13"; }
+	const char *prop() const { return wanted_prop() == "C16" ? "C16" : "C13"; }   // C16 runs this harness too: a crash, sanitizer report or assertion then counts for it
 	V &s(int a) { return *reinterpret_cast<V *>(store[a]); }
 	void reset() {
 		world_reset();
@@ -255,7 +255,7 @@ struct StackHarness : HarnessBase {
 	bool alive = false; int cap;
 	std::vector<int> ref;
 	StackHarness(int c) : cap(c) {}
-	const char *prop() const { return "C13"; }
+	const char *prop() const { return wanted_prop() == "C16" ? "C16" : "C13"; }   // C16 runs this harness too: a crash, sanitizer report or assertion then counts for it
 	V &s() { return *reinterpret_cast<V *>(store); }
 	void reset() { world_reset(); memset(store, 0xA5, sizeof store); new(store) V(TrackAlloc{}); alive = true; ref.clear(); }
 	void ops(std::vector<uint32_t> &out) {
@@ -287,7 +287,7 @@ struct ListHarness : HarnessBase {
 	bool alive = false; int cap;
 	std::vector<int> ref;
 	ListHarness(int c) : cap(c) {}
-	const char *prop() const { return "C13"; }
+	const char *prop() const { return wanted_prop() == "C16" ? "C16" : "C13"; }   // C16 runs this harness too: a crash, sanitizer report or assertion then counts for it
 	V &s() { return *reinterpret_cast<V *>(store); }
 	void reset() { world_reset(); memset(store, 0xA5, sizeof store); new(store) V(TrackAlloc{}); alive = true; ref.clear(); }
 	void ops(std::vector<uint32_t> &out) {
